@@ -275,6 +275,28 @@ class C15(Check):
             for k in ("_vals", "_sys", "_keys"):
                 del case[k]
             yield case
+        # directed: several systems share (key, JSON text); lookups through every kind of handle, then one is removed
+        for idx in range(n // 8):
+            pre = rng.choice(PREFIXES[1:])
+            case = {"stores": [True, True, False], "sources": [(pre, True), (rng.choice(PREFIXES), rng.random() < 0.8)],
+                    "handlers": [rng.choice(hp), rng.choice(hp)]}
+            key = rng.choice(KEYS)
+            v = rng.choice([x for x in VALUES if dumps_or_none(x) is not None])
+            v2 = rng.choice([1, 1.0, True, "1", v])
+            syss = rng.sample(SYS, 3)
+            steps = [("store", rng.randrange(3), "set", syss[0], key, v),
+                     ("store", rng.randrange(3), "set", syss[1], key, rng.choice([v, v, v2])),
+                     ("store", rng.randrange(3), "set", syss[2], rng.choice([key, "k"]), rng.choice([v, v2]))]
+            rng.shuffle(steps)
+            tail = [("source", 0, "find", pre + ":" + key, v), ("store", rng.randrange(3), "find", key, v),
+                    ("source", 1, "find", (case["sources"][1][0] + ":" if case["sources"][1][0] else "") + key, v),
+                    ("source", 0, "get", syss[0]), ("store", rng.randrange(3), "list"),
+                    ("store", rng.randrange(3), rng.choice(["del", "delall"]), syss[1], key),
+                    ("source", 0, "find", pre + ":" + key, v2), ("store", rng.randrange(3), "getdata", syss[0])]
+            tail = [s[:4] if s[2] == "delall" else s for s in tail]
+            steps += rng.sample(tail, rng.randrange(2, 6))
+            case["steps"] = steps[:8]
+            yield case
 
     # ---- the real code
     def impl(self, c):
@@ -476,6 +498,17 @@ class C15(Check):
         st = c["steps"]
         for i in range(len(st)):
             yield dict(c, steps=st[:i] + st[i + 1:])
+
+    def evaluate(self, cases):
+        """the driver also reports, for every value of the case, whether check_value v = (json_image v == v) in the
+        model (converse direction of strict_values_roundtrip, proved only for top-level shapes): a 0 there is a
+        failure of the model-side claim"""
+        res = []
+        for (c, o, m, fm, fi, rest) in super().evaluate(cases):
+            if rest and any(b == 0 for b in rest[0]):
+                fm = fm + ["check_value_iff_image_fixed"]
+            res.append((c, o, m, fm, fi, rest))
+        return res
 
     # ---- killed writer
     def kill_run(self, ops, n):
